@@ -30,10 +30,11 @@ NClose == Step([a |-> "close"])                      \* always possible: every v
 NCloseInit == ops < MaxOps /\ Step([a |-> "closeinit"])
 NUnwind == ops < MaxOps /\ Step([a |-> "unwind"])
 NRead == ops < MaxOps /\ \E n \in Avails, ks \in Chains : Step([a |-> "read", bs |-> Fresh(n), ks |-> ks])
+NReadClose == ops < MaxOps /\ \E n \in Avails : Step([a |-> "readclose", bs |-> Fresh(n)])
 NFinal == Step([a |-> "final"])
 
 Next == \/ NSetup \/ NOpen \/ NWrite \/ NExtend \/ NAdvance \/ NScribble
-        \/ NClose \/ NCloseInit \/ NUnwind \/ NRead \/ NFinal
+        \/ NClose \/ NCloseInit \/ NUnwind \/ NRead \/ NReadClose \/ NFinal
 
 Spec == Init /\ [][Next]_vars
 
